@@ -236,8 +236,9 @@ Qed.
 Section Heap.
   Variable k : klass.
   Variable inh : option bool.
+  Variable eu : option bool.
   Variables pre post : list (pystr * pyval).
-  Notation h := (klass_heap k inh pre post).
+  Notation h := (klass_heap k inh eu pre post).
 
   Lemma getattr_ref (hh : heap) n a :
     obj_getattr hh (ref n) a = match hh n a with Some v => Ok v | None => Raise AttributeError end.
@@ -288,6 +289,26 @@ Section Heap.
     intro H. rewrite getattr_ref.
     change (h o_clazz (s2p "_ignore_none")) with
       (match effective_ignore_none inh k with Some b => Some (PBool b) | None => None end).
+    rewrite H. reflexivity.
+  Qed.
+
+  (* hasattr(clazz, "_enable_undefined_value") / clazz._enable_undefined_value *)
+  Lemma heap_has_undefined :
+    obj_hasattr h (ref o_clazz) (s2p "_enable_undefined_value") =
+    Ok (match eu with Some _ => true | None => false end).
+  Proof.
+    unfold obj_hasattr, ref. change (pystr_eqb ref_tag ref_tag) with true. cbv iota.
+    change (h o_clazz (s2p "_enable_undefined_value")) with
+      (match eu with Some b => Some (PBool b) | None => None end).
+    destruct eu; reflexivity.
+  Qed.
+
+  Lemma heap_get_undefined b :
+    eu = Some b -> obj_getattr h (ref o_clazz) (s2p "_enable_undefined_value") = Ok (PBool b).
+  Proof.
+    intro H. rewrite getattr_ref.
+    change (h o_clazz (s2p "_enable_undefined_value")) with
+      (match eu with Some b => Some (PBool b) | None => None end).
     rewrite H. reflexivity.
   Qed.
 
@@ -348,15 +369,16 @@ Proof. reflexivity. Qed.
 Section Common.
   Variable k : klass.
   Variable inh : option bool.
+  Variable eu : option bool.
   Variables pre post : list (pystr * pyval).
   Hypothesis Hpre : others_ok pre = true.
   Hypothesis Hpost : others_ok post = true.
-  Notation h := (klass_heap k inh pre post).
+  Notation h := (klass_heap k inh eu pre post).
   Notation ign := (effective_ignore_none inh k).
 
   (* _init_class_dict(clazz): exactly "_fields", and "_ignore_none" when the class has the attribute -- set by
      its own body or inherited *)
-  Lemma init_class_dict_src : init_class_dict h (ref o_clazz) = Ok (dict_of (init_core k ign)).
+  Lemma init_class_dict_src : init_class_dict h (ref o_clazz) = Ok (dict_of (init_core k ign eu)).
   Proof.
     unfold init_class_dict. rewrite include_set. cbn [bind]. rewrite heap_dict. cbn [bind].
     rewrite items_dict. cbn [bind]. change (PDict []) with (dict_of []).
@@ -364,10 +386,19 @@ Section Common.
     - rewrite afoldM_ok. cbn [bind]. unfold own_dict. rewrite !fold_left_app.
       rewrite (copy_others pre) by exact Hpre. rewrite copy_core. rewrite (copy_others post) by exact Hpost.
       rewrite heap_has_ignore. unfold init_core. destruct ign as [b|] eqn:Ei; cbn [bind].
-      + rewrite (heap_get_ignore k inh pre post b Ei). cbn [bind].
+      + rewrite (heap_get_ignore k inh eu pre post b Ei). cbn [bind].
         change (PStr (s2p "_ignore_none")) with (PStr n_ignore_none). rewrite setitem_dict. cbn [bind].
-        rewrite (alist_set_fresh _ _ _ (core_no_ignore k)). reflexivity.
-      + rewrite app_nil_r. reflexivity.
+        rewrite (alist_set_fresh _ _ _ (core_no_ignore k)).
+        rewrite heap_has_undefined. destruct eu as [c|] eqn:Eu; cbn [bind].
+        * rewrite (heap_get_undefined k inh (Some c) pre post c eq_refl). cbn [bind].
+          change (PStr (s2p "_enable_undefined_value")) with (PStr n_enable_undefined). rewrite setitem_dict.
+          reflexivity.
+        * rewrite app_nil_r. reflexivity.
+      + rewrite heap_has_undefined. destruct eu as [c|] eqn:Eu; cbn [bind].
+        * rewrite (heap_get_undefined k inh (Some c) pre post c eq_refl). cbn [bind].
+          change (PStr (s2p "_enable_undefined_value")) with (PStr n_enable_undefined). rewrite setitem_dict.
+          reflexivity.
+        * reflexivity.
     - intros acc [n v] _. unfold item_of. cbn [fst snd py_unpack py_iter_items bind length Nat.eqb].
       rewrite in_included. cbn [bind]. unfold copy_step. cbn [fst snd].
       destruct (str_in n included_attrs); [rewrite setitem_dict|]; reflexivity.
@@ -380,13 +411,13 @@ End Common.
 (* ------------------------------------------------------------------ names *)
 
 Definition reserved (n : pystr) : bool :=
-  pystr_eqb n n_required || pystr_eqb n n_ignore_none || pystr_eqb n n_fields.
+  pystr_eqb n n_required || pystr_eqb n n_ignore_none || pystr_eqb n n_fields || pystr_eqb n n_enable_undefined.
 
 Lemma reserved_us n : match n with a :: _ => N.eqb a us | [] => false end = false -> reserved n = false.
 Proof.
   unfold reserved.
   change n_required with (us :: s2p "required"). change n_ignore_none with (us :: s2p "ignore_none").
-  change n_fields with (us :: s2p "fields").
+  change n_fields with (us :: s2p "fields"). change n_enable_undefined with (us :: s2p "enable_undefined_value").
   destruct n as [|a t]; [reflexivity|]. intro H. cbn [pystr_eqb]. rewrite H. reflexivity.
 Qed.
 
@@ -397,14 +428,21 @@ Lemma reserved_spec n :
   reserved n = false ->
   pystr_eqb n_required n = false /\ pystr_eqb n_ignore_none n = false /\ pystr_eqb n_fields n = false.
 Proof.
-  unfold reserved. intro H. apply orb_false_iff in H as [H H3]. apply orb_false_iff in H as [H1 H2].
+  unfold reserved. intro H. apply orb_false_iff in H as [H _]. apply orb_false_iff in H as [H H3].
+  apply orb_false_iff in H as [H1 H2].
   rewrite (pystr_eqb_sym n_required), (pystr_eqb_sym n_ignore_none), (pystr_eqb_sym n_fields). auto.
 Qed.
 
-Lemma core_fresh k ign n : reserved n = false -> alist_has (init_core k ign) n = false.
+Lemma reserved_undefined n : reserved n = false -> pystr_eqb n_enable_undefined n = false.
 Proof.
-  intro H. apply reserved_spec in H as [_ [H2 H3]]. unfold init_core, own_core, alist_has.
-  destruct ign; cbn [app alist_get]; rewrite H3, ?H2; reflexivity.
+  unfold reserved. intro H. apply orb_false_iff in H as [_ H]. rewrite pystr_eqb_sym. exact H.
+Qed.
+
+Lemma core_fresh k ign eu n : reserved n = false -> alist_has (init_core k ign eu) n = false.
+Proof.
+  intro H. pose proof (reserved_undefined n H) as H4.
+  apply reserved_spec in H as [_ [H2 H3]]. unfold init_core, own_core, alist_has.
+  destruct ign; destruct eu; cbn [app alist_get]; rewrite H3, ?H2, ?H4; reflexivity.
 Qed.
 
 Lemma src_ok_spec k :
@@ -464,30 +502,40 @@ Qed.
 Definition stmt_of (name : pystr) (d : dec) : classstmt :=
   {| s_name := name; s_bases := [n_Structure]; s_members := as_objs (dc_members d);
      s_required := dc_required d; s_optional := None; s_additional := None;
-     s_ignore_none := dc_ignore d; s_attrs := []; s_keys_of := [] |}.
+     s_ignore_none := dc_ignore d; s_attrs := undefined_attrs (dc_undefined d); s_keys_of := [] |}.
 
 Lemma decode_newclass_eq k name entries :
   decode_newclass k (new_class (PStr name) (PTuple [ref (s2p "Structure")]) (dict_of entries)) =
   (d <- decode_entries k (skeys entries) ;; Ok (stmt_of name d)).
 Proof. reflexivity. Qed.
 
-Lemma stmt_of_eq name d ign ms req :
-  dc_members d = ms -> dc_required d = Some req -> dc_ignore d = ign ->
-  stmt_of name d = derived_stmt name ign ms req.
-Proof. intros H1 H2 H3. unfold stmt_of, derived_stmt. rewrite H1, H2, H3. reflexivity. Qed.
+Lemma stmt_of_eq name d ign eu ms req :
+  dc_members d = ms -> dc_required d = Some req -> dc_ignore d = ign -> dc_undefined d = eu ->
+  stmt_of name d = derived_stmt_eu name ign eu ms req.
+Proof.
+  intros H1 H2 H3 H4. unfold stmt_of, derived_stmt_eu, with_undefined, derived_stmt.
+  cbn [s_name s_bases s_members s_required s_optional s_additional s_ignore_none s_attrs s_keys_of].
+  rewrite H1, H2, H3, H4, app_nil_r. reflexivity.
+Qed.
 
 Definition with_ignore (o : option bool) (d : dec) : dec :=
   match o with Some b => dec_set_ignore b d | None => d end.
+Definition with_undef (o : option bool) (d : dec) : dec :=
+  match o with Some b => dec_set_undefined b d | None => d end.
 
-Lemma decode_core k ign rest :
-  decode_entries k (skeys (init_core k ign ++ rest)) =
-  (r <- decode_entries k (skeys rest) ;; Ok (with_ignore ign r)).
+Lemma decode_core k ign eu rest :
+  decode_entries k (skeys (init_core k ign eu ++ rest)) =
+  (r <- decode_entries k (skeys rest) ;; Ok (with_ignore ign (with_undef eu r))).
 Proof.
-  unfold init_core, own_core, with_ignore. destruct ign as [b|];
+  unfold init_core, own_core, with_ignore, with_undef. destruct ign as [b|]; destruct eu as [c|];
     cbn [app skeys map fst snd decode_entries];
     change (pystr_eqb n_fields n_required) with false; change (pystr_eqb n_fields n_ignore_none) with false;
+    change (pystr_eqb n_fields n_enable_undefined) with false;
     change (pystr_eqb n_fields n_fields) with true;
     change (pystr_eqb n_ignore_none n_required) with false; change (pystr_eqb n_ignore_none n_ignore_none) with true;
+    change (pystr_eqb n_enable_undefined n_required) with false;
+    change (pystr_eqb n_enable_undefined n_ignore_none) with false;
+    change (pystr_eqb n_enable_undefined n_enable_undefined) with true;
     cbv iota; fold (skeys rest); destruct (decode_entries k (skeys rest)); reflexivity.
 Qed.
 
@@ -509,7 +557,9 @@ Proof.
   - cbn [fld_entries map app skeys fst snd decode_entries]. fold (fld_entries t). fold (skeys (fld_entries t ++ rest)).
     rewrite IH; [| intros x Hx; apply Hr; right; exact Hx | intros x Hx; apply Hf; right; exact Hx].
     destruct (reserved_spec n (Hr n (or_introl eq_refl))) as [H1 [H2 H3]].
-    rewrite (pystr_eqb_sym n n_required), (pystr_eqb_sym n n_ignore_none), (pystr_eqb_sym n n_fields), H1, H2, H3.
+    pose proof (reserved_undefined n (Hr n (or_introl eq_refl))) as H4.
+    rewrite (pystr_eqb_sym n n_required), (pystr_eqb_sym n n_ignore_none), (pystr_eqb_sym n n_fields),
+            (pystr_eqb_sym n n_enable_undefined), H1, H2, H3, H4.
     rewrite decode_fld. cbn [members_of flat_map].
     pose proof (Hf n (or_introl eq_refl)) as Hn. unfold alist_has in Hn.
     destruct (alist_get (k_all k) n) as [m|]; [|discriminate].
@@ -521,6 +571,8 @@ Proof. induction ms as [|x t IH]; [reflexivity|]. cbn [fold_right dec_add_member
 Lemma dc_required_fold r ms : dc_required (fold_right dec_add_member r ms) = dc_required r.
 Proof. induction ms as [|x t IH]; [reflexivity|]. exact IH. Qed.
 Lemma dc_ignore_fold r ms : dc_ignore (fold_right dec_add_member r ms) = dc_ignore r.
+Proof. induction ms as [|x t IH]; [reflexivity|]. exact IH. Qed.
+Lemma dc_undefined_fold r ms : dc_undefined (fold_right dec_add_member r ms) = dc_undefined r.
 Proof. induction ms as [|x t IH]; [reflexivity|]. exact IH. Qed.
 
 (* ------------------------------------------------------------------ small closed computations *)
@@ -557,8 +609,8 @@ Proof.
   rewrite H. f_equal. apply filter_all. apply forallb_forall. reflexivity.
 Qed.
 
-Lemma core_no_required k ign : alist_has (init_core k ign) n_required = false.
-Proof. unfold init_core, own_core. destruct ign; reflexivity. Qed.
+Lemma core_no_required k ign eu : alist_has (init_core k ign eu) n_required = false.
+Proof. unfold init_core, own_core. destruct ign; destruct eu; reflexivity. Qed.
 
 Lemma flds_no_required ns : (forall n, In n ns -> reserved n = false) -> alist_has (fld_entries ns) n_required = false.
 Proof.
@@ -566,9 +618,9 @@ Proof.
   apply alist_has_In in E. rewrite fld_entries_names in E. apply H in E. discriminate.
 Qed.
 
-Lemma core_req_fresh k ign x n : reserved n = false -> alist_has (init_core k ign ++ [(n_required, x)]) n = false.
+Lemma core_req_fresh k ign eu x n : reserved n = false -> alist_has (init_core k ign eu ++ [(n_required, x)]) n = false.
 Proof.
-  intro H. rewrite alist_has_app, (core_fresh k ign n H). destruct (reserved_spec n H) as [H1 _].
+  intro H. rewrite alist_has_app, (core_fresh k ign eu n H). destruct (reserved_spec n H) as [H1 _].
   unfold alist_has. cbn [alist_get orb]. rewrite H1. reflexivity.
 Qed.
 
@@ -667,11 +719,12 @@ Qed.
 Section Operators.
   Variable k : klass.
   Variable inh : option bool.
+  Variable eu : option bool.
   Variables pre post : list (pystr * pyval).
   Hypothesis Hpre : others_ok pre = true.
   Hypothesis Hpost : others_ok post = true.
   Hypothesis Hsrc : src_ok k = true.
-  Notation h := (klass_heap k inh pre post).
+  Notation h := (klass_heap k inh eu pre post).
   Notation ign := (effective_ignore_none inh k).
 
   Ltac guard_steps Hs :=
@@ -681,17 +734,20 @@ Section Operators.
               ?tup2_len_range, ?tup3_len_range, ?heap_isinstance, ?Hs)).
 
   Ltac finish_stmt Hnd :=
-    cbn [skeys map decode_entries bind derive_stmt derived_name op_prefix]; f_equal; apply stmt_of_eq; unfold with_ignore;
-    [ destruct ign; cbn [dec_set_ignore dec_set_required dc_members];
-      rewrite ?dc_members_fold; cbn [dec_set_ignore dec_set_required dc_members dec_empty]; rewrite ?app_nil_r
-    | destruct ign; cbn [dec_set_ignore dec_set_required dc_required];
+    cbn [skeys map decode_entries bind derive_stmt_eu derive_stmt derived_name op_prefix];
+    f_equal; apply stmt_of_eq; unfold with_ignore, with_undef;
+    [ destruct ign; destruct eu; cbn [dec_set_ignore dec_set_undefined dec_set_required dc_members];
+      rewrite ?dc_members_fold; cbn [dec_set_ignore dec_set_undefined dec_set_required dc_members dec_empty]; rewrite ?app_nil_r
+    | destruct ign; destruct eu; cbn [dec_set_ignore dec_set_undefined dec_set_required dc_required];
       rewrite ?dc_required_fold; reflexivity
-    | destruct ign; cbn [dec_set_ignore dec_set_required dc_ignore];
-      rewrite ?dc_ignore_fold; reflexivity ].
+    | destruct ign; destruct eu; cbn [dec_set_ignore dec_set_undefined dec_set_required dc_ignore];
+      rewrite ?dc_ignore_fold; reflexivity
+    | destruct ign; destruct eu; cbn [dec_set_ignore dec_set_undefined dec_set_required dc_undefined];
+      rewrite ?dc_undefined_fold; reflexivity ].
 
   (* the common beginning of every operator body: _init_class_dict, then the loop over the field objects *)
   Ltac start_body :=
-    rewrite (init_class_dict_src k inh pre post Hpre Hpost); cbn [bind].
+    rewrite (init_class_dict_src k inh eu pre post Hpre Hpost); cbn [bind].
 
   Ltac unpack_item :=
     unfold item_of; cbn [fst snd py_unpack py_iter_items bind length Nat.eqb].
@@ -716,7 +772,7 @@ Section Operators.
 
   Theorem Partial_src_is_model : forall cname,
       (x <- PartialMeta_getitem h (op_class OpPartial) (class_arg cname) ;; decode_newclass k x) =
-      derive_stmt inh k OpPartial cname.
+      derive_stmt_eu inh eu k OpPartial cname.
   Proof.
     intro cname. destruct (src_ok_spec k Hsrc) as [Hs [Hnd Hres]].
     unfold PartialMeta_getitem. destruct cname as [n|]; unfold class_arg.
@@ -733,7 +789,7 @@ Section Operators.
     start_body;
     rewrite heap_required_def; cbn [bind];
     change (PStr (s2p "_required")) with (PStr n_required);
-    rewrite setitem_dict; cbn [bind]; rewrite (alist_set_fresh _ _ _ (core_no_required k ign));
+    rewrite setitem_dict; cbn [bind]; rewrite (alist_set_fresh _ _ _ (core_no_required k ign eu));
     rewrite get_all_fields_src; cbn [bind]; rewrite items_dict; cbn [bind];
     rewrite (foldM_items _ (fun acc p => Ok (alist_set acc (fst p) (snd p))));
     [| intros acc [n' v'] _; unpack_item; rewrite setitem_dict; reflexivity ];
@@ -748,7 +804,7 @@ Section Operators.
 
   Theorem Extend_src_is_model : forall cname,
       (x <- ExtendMeta_getitem h (op_class OpExtend) (class_arg cname) ;; decode_newclass k x) =
-      derive_stmt inh k OpExtend cname.
+      derive_stmt_eu inh eu k OpExtend cname.
   Proof.
     intro cname. destruct (src_ok_spec k Hsrc) as [Hs [Hnd Hres]].
     unfold ExtendMeta_getitem. destruct cname as [n|]; unfold class_arg.
@@ -780,11 +836,11 @@ Section Operators.
   Ltac allreq_body Hnd Hres :=
     start_body;
     change (PStr (s2p "_required")) with (PStr n_required); change (PList []) with (dv_names []);
-    rewrite setitem_dict; cbn [bind]; rewrite (alist_set_fresh _ _ _ (core_no_required k ign));
+    rewrite setitem_dict; cbn [bind]; rewrite (alist_set_fresh _ _ _ (core_no_required k ign eu));
     rewrite get_all_fields_src; cbn [bind]; rewrite items_dict; cbn [bind];
     rewrite (foldM_items _ (allreq_step k)); [| allreq_loop_step ];
     rewrite field_by_name_entries; unfold field_names; cbn [app];
-    rewrite (allreq_afold k (k_all k) (init_core k ign) [] []);
+    rewrite (allreq_afold k (k_all k) (init_core k ign eu) [] []);
     [| intros [n' m'] Hin'; cbn [fst snd]; apply (In_alist_get_NoDup _ _ _ Hnd Hin')
      | exact Hnd
      | intros n' Hn'; split; [apply core_fresh; apply Hres; exact Hn' | split; [reflexivity | apply (reserved_spec n' (Hres n' Hn'))]]
@@ -798,7 +854,7 @@ Section Operators.
 
   Theorem AllFieldsRequired_src_is_model : forall cname,
       (x <- AllFieldsRequiredMeta_getitem h (op_class OpAllRequired) (class_arg cname) ;; decode_newclass k x) =
-      derive_stmt inh k OpAllRequired cname.
+      derive_stmt_eu inh eu k OpAllRequired cname.
   Proof.
     intro cname. destruct (src_ok_spec k Hsrc) as [Hs [Hnd Hres]].
     unfold AllFieldsRequiredMeta_getitem. destruct cname as [n|]; unfold class_arg.
@@ -817,13 +873,13 @@ Section Operators.
 
   Definition omit_model (ns : list pystr) (name : pystr) : res classstmt :=
     if forallb (fun n => alist_has (k_all k) n) ns
-    then Ok (derived_stmt name ign (filter (fun nm => negb (str_in (fst nm) ns)) (k_all k))
+    then Ok (derived_stmt_eu name ign eu (filter (fun nm => negb (str_in (fst nm) ns)) (k_all k))
                           (filter (fun x => negb (str_in x ns)) (k_required k)))
     else Raise TypeError.
 
   Definition pick_model (ns : list pystr) (name : pystr) : res classstmt :=
     if forallb (fun n => alist_has (k_all k) n) ns
-    then Ok (derived_stmt name ign (pick_members (k_all k) ns) (filter (fun x => str_in x ns) (k_required k)))
+    then Ok (derived_stmt_eu name ign eu (pick_members (k_all k) ns) (filter (fun x => str_in x ns) (k_required k)))
     else Raise TypeError.
 
   Lemma filter_fields_sub (p : pystr -> bool) :
@@ -845,7 +901,7 @@ Section Operators.
     2: { intro n. rewrite py_in_tuple. reflexivity. }
     cbn [bind]. change (PStr (s2p "_required")) with (PStr n_required).
     match goal with |- context [PList (map PStr ?l)] => change (PList (map PStr l)) with (dv_names l) end.
-    rewrite setitem_dict. cbn [bind]. rewrite (alist_set_fresh _ _ _ (core_no_required k ign)).
+    rewrite setitem_dict. cbn [bind]. rewrite (alist_set_fresh _ _ _ (core_no_required k ign eu)).
     rewrite (foldM_check _ (fun n => alist_has (k_all k) n) TypeError).
     2: { intro n. rewrite get_all_fields_src. cbn [bind]. rewrite in_dict, fbn_has. cbn [py_not bind].
          destruct (alist_has (k_all k) n); reflexivity. }
@@ -864,16 +920,17 @@ Section Operators.
     match goal with |- context [dict_of ?e] =>
       assert (Hfin : forall name,
                  (x <- Ok (new_class (PStr name) (PTuple [ref (s2p "Structure")]) (dict_of e)) ;; decode_newclass k x) =
-                 Ok (derived_stmt name ign (filter (fun nm => negb (str_in (fst nm) ns)) (k_all k))
+                 Ok (derived_stmt_eu name ign eu (filter (fun nm => negb (str_in (fst nm) ns)) (k_all k))
                                   (filter (fun x => negb (str_in x ns)) (k_required k))))
     end.
     { intro name. cbn [bind]. rewrite decode_newclass_eq. rewrite <- app_assoc. cbn [app].
       rewrite decode_core, decode_required, (decode_flds_end _ _ Hres' Hhas').
-      cbn [skeys map decode_entries bind]. f_equal. apply stmt_of_eq; unfold with_ignore.
-      - destruct ign; cbn [dec_set_ignore dec_set_required dc_members];
+      cbn [skeys map decode_entries bind]. f_equal. apply stmt_of_eq; unfold with_ignore, with_undef.
+      - destruct ign; destruct eu; cbn [dec_set_ignore dec_set_undefined dec_set_required dc_members];
           rewrite dc_members_fold; cbn [dec_empty dc_members]; rewrite app_nil_r; exact (members_of_filter k (fun n => negb (str_in n ns)) Hnd).
-      - destruct ign; reflexivity.
-      - destruct ign; cbn [dec_set_ignore dec_set_required dc_ignore]; rewrite ?dc_ignore_fold; reflexivity. }
+      - destruct ign; destruct eu; reflexivity.
+      - destruct ign; destruct eu; cbn [dec_set_ignore dec_set_undefined dec_set_required dc_ignore]; rewrite ?dc_ignore_fold; reflexivity.
+      - destruct ign; destruct eu; cbn [dec_set_ignore dec_set_undefined dec_set_required dc_undefined]; rewrite ?dc_undefined_fold; reflexivity. }
     destruct cn as [|a t]; cbn [py_truthy length Nat.eqb negb bind]; rewrite ?heap_name;
       cbn [bind py_format name_or]; apply Hfin.
   Qed.
@@ -895,10 +952,10 @@ Section Operators.
     assert (Hin : forall n, In n ns -> In n (field_names k)).
     { intros n Hn. rewrite forallb_forall in Hall. apply alist_has_In. apply Hall. exact Hn. }
     rewrite fold_set_dedup.
-    2: { intros n Hn. left. pose proof (core_fresh k ign n (Hres n (Hin n Hn))) as Hc. unfold alist_has in Hc.
-         destruct (alist_get (init_core k ign) n); [discriminate|reflexivity]. }
-    rewrite (filter_all (fun n => negb (alist_has (init_core k ign) n)) ns).
-    2: { apply forallb_forall. intros n Hn. rewrite (core_fresh k ign n (Hres n (Hin n Hn))). reflexivity. }
+    2: { intros n Hn. left. pose proof (core_fresh k ign eu n (Hres n (Hin n Hn))) as Hc. unfold alist_has in Hc.
+         destruct (alist_get (init_core k ign eu) n); [discriminate|reflexivity]. }
+    rewrite (filter_all (fun n => negb (alist_has (init_core k ign eu) n)) ns).
+    2: { apply forallb_forall. intros n Hn. rewrite (core_fresh k ign eu n (Hres n (Hin n Hn))). reflexivity. }
     fold (fld_entries (dedup_str ns)).
     assert (Hres' : forall n, In n (dedup_str ns) -> reserved n = false).
     { intros n Hn. apply Hres, Hin. apply In_dedup_str. exact Hn. }
@@ -914,26 +971,33 @@ Section Operators.
     match goal with |- context [dict_of ?e] =>
       assert (Hfin : forall name,
                  (x <- Ok (new_class (PStr name) (PTuple [ref (s2p "Structure")]) (dict_of e)) ;; decode_newclass k x) =
-                 Ok (derived_stmt name ign (pick_members (k_all k) ns) (filter (fun x => str_in x ns) (k_required k))))
+                 Ok (derived_stmt_eu name ign eu (pick_members (k_all k) ns) (filter (fun x => str_in x ns) (k_required k))))
     end.
     { intro name. cbn [bind]. rewrite decode_newclass_eq. rewrite <- app_assoc.
       rewrite decode_core, (decode_flds _ _ _ Hres' Hhas'), decode_required.
-      cbn [skeys map decode_entries bind]. f_equal. apply stmt_of_eq; unfold with_ignore.
-      - destruct ign; cbn [dec_set_ignore dc_members];
+      cbn [skeys map decode_entries bind]. f_equal. apply stmt_of_eq; unfold with_ignore, with_undef.
+      - destruct ign; destruct eu; cbn [dec_set_ignore dec_set_undefined dc_members];
           rewrite dc_members_fold; cbn [dec_set_required dec_empty dc_members]; rewrite app_nil_r; reflexivity.
-      - destruct ign; cbn [dec_set_ignore dc_required]; rewrite dc_required_fold; reflexivity.
-      - destruct ign; cbn [dec_set_ignore dc_ignore]; rewrite ?dc_ignore_fold; reflexivity. }
+      - destruct ign; destruct eu; cbn [dec_set_ignore dec_set_undefined dc_required]; rewrite dc_required_fold; reflexivity.
+      - destruct ign; destruct eu; cbn [dec_set_ignore dec_set_undefined dc_ignore]; rewrite ?dc_ignore_fold; reflexivity.
+      - destruct ign; destruct eu; cbn [dec_set_ignore dec_set_undefined dc_undefined]; rewrite ?dc_undefined_fold; reflexivity. }
     destruct cn as [|a t]; cbn [py_truthy length Nat.eqb negb bind]; rewrite ?heap_name;
       cbn [bind py_format name_or]; apply Hfin.
   Qed.
 
   Lemma omit_model_eq ns cname :
-    omit_model ns (derived_name (OpOmit ns) cname k) = derive_stmt inh k (OpOmit ns) cname.
-  Proof. reflexivity. Qed.
+    omit_model ns (derived_name (OpOmit ns) cname k) = derive_stmt_eu inh eu k (OpOmit ns) cname.
+  Proof.
+    unfold omit_model, derive_stmt_eu. cbn [derive_stmt].
+    destruct (forallb (fun n => alist_has (k_all k) n) ns); reflexivity.
+  Qed.
 
   Lemma pick_model_eq ns cname :
-    pick_model ns (derived_name (OpPick ns) cname k) = derive_stmt inh k (OpPick ns) cname.
-  Proof. reflexivity. Qed.
+    pick_model ns (derived_name (OpPick ns) cname k) = derive_stmt_eu inh eu k (OpPick ns) cname.
+  Proof.
+    unfold pick_model, derive_stmt_eu. cbn [derive_stmt].
+    destruct (forallb (fun n => alist_has (k_all k) n) ns); reflexivity.
+  Qed.
 
   Lemma name_or_given prefix cname :
     name_given cname = true ->
@@ -948,7 +1012,7 @@ Section Operators.
   Theorem Structure_omit_src_is_model : forall ns cname,
       name_given cname = true ->
       (x <- Structure_omit h (ref o_clazz) (PTuple (map PStr ns)) (class_name_kw cname) ;; decode_newclass k x) =
-      derive_stmt inh k (OpOmit ns) cname.
+      derive_stmt_eu inh eu k (OpOmit ns) cname.
   Proof.
     intros ns cname Hg. unfold class_name_kw. rewrite Structure_omit_src, (name_or_given _ _ Hg).
     apply omit_model_eq.
@@ -957,7 +1021,7 @@ Section Operators.
   Theorem Structure_pick_src_is_model : forall ns cname,
       name_given cname = true ->
       (x <- Structure_pick h (ref o_clazz) (PTuple (map PStr ns)) (class_name_kw cname) ;; decode_newclass k x) =
-      derive_stmt inh k (OpPick ns) cname.
+      derive_stmt_eu inh eu k (OpPick ns) cname.
   Proof.
     intros ns cname Hg. unfold class_name_kw. rewrite Structure_pick_src, (name_or_given _ _ Hg).
     apply pick_model_eq.
@@ -999,7 +1063,7 @@ Section Operators.
   Theorem Omit_src_is_model : forall b ns cname,
       name_given cname = true ->
       (x <- OmitMeta_getitem h (op_class (OpOmit ns)) (sel_arg b ns cname) ;; decode_newclass k x) =
-      derive_stmt inh k (OpOmit ns) cname.
+      derive_stmt_eu inh eu k (OpOmit ns) cname.
   Proof.
     intros b ns cname Hg. rewrite OmitMeta_src, <- omit_model_eq. f_equal.
     destruct cname as [[|a t]|]; [discriminate|reflexivity|reflexivity].
@@ -1008,7 +1072,7 @@ Section Operators.
   Theorem Pick_src_is_model : forall b ns cname,
       name_given cname = true ->
       (x <- PickMeta_getitem h (op_class (OpPick ns)) (sel_arg b ns cname) ;; decode_newclass k x) =
-      derive_stmt inh k (OpPick ns) cname.
+      derive_stmt_eu inh eu k (OpPick ns) cname.
   Proof.
     intros b ns cname Hg. rewrite PickMeta_src, <- pick_model_eq. f_equal.
     destruct cname as [[|a t]|]; [discriminate|reflexivity|reflexivity].
@@ -1019,12 +1083,12 @@ Section Operators.
      whereas [derived_name] keeps the empty name. *)
   Theorem Omit_src_empty_name : forall b ns,
       (x <- OmitMeta_getitem h (op_class (OpOmit ns)) (sel_arg b ns (Some [])) ;; decode_newclass k x) =
-      derive_stmt inh k (OpOmit ns) None.
+      derive_stmt_eu inh eu k (OpOmit ns) None.
   Proof. intros b ns. rewrite OmitMeta_src, <- omit_model_eq. reflexivity. Qed.
 
   Theorem Pick_src_empty_name : forall b ns,
       (x <- PickMeta_getitem h (op_class (OpPick ns)) (sel_arg b ns (Some [])) ;; decode_newclass k x) =
-      derive_stmt inh k (OpPick ns) None.
+      derive_stmt_eu inh eu k (OpPick ns) None.
   Proof. intros b ns. rewrite PickMeta_src, <- pick_model_eq. reflexivity. Qed.
 End Operators.
 
@@ -1033,9 +1097,10 @@ End Operators.
 Section NotStructure.
   Variable k : klass.
   Variable inh : option bool.
+  Variable eu : option bool.
   Variables pre post : list (pystr * pyval).
   Hypothesis Hns : k_is_struct k = false.
-  Notation h := (klass_heap k inh pre post).
+  Notation h := (klass_heap k inh eu pre post).
 
   Ltac guard_steps :=
     repeat (progress (
@@ -1070,11 +1135,11 @@ Definition run_operator (h : heap) (o : op) (as_list : bool) (cname : option pys
   | OpPick ns => PickMeta_getitem h (op_class o) (sel_arg as_list ns cname)
   end.
 
-Theorem operators_src_is_model : forall k inh pre post o as_list cname,
+Theorem operators_src_is_model : forall k inh eu pre post o as_list cname,
     others_ok pre = true -> others_ok post = true -> src_ok k = true -> op_ok k o cname = true ->
-    (x <- run_operator (klass_heap k inh pre post) o as_list cname ;; decode_newclass k x) = derive_stmt inh k o cname.
+    (x <- run_operator (klass_heap k inh eu pre post) o as_list cname ;; decode_newclass k x) = derive_stmt_eu inh eu k o cname.
 Proof.
-  intros k inh pre post o b cname Hpre Hpost Hsrc Hop. destruct o as [| | |ns|ns]; cbn [run_operator op_ok] in *.
+  intros k inh eu pre post o b cname Hpre Hpost Hsrc Hop. destruct o as [| | |ns|ns]; cbn [run_operator op_ok] in *.
   - apply Partial_src_is_model; assumption.
   - apply AllFieldsRequired_src_is_model; assumption.
   - apply Extend_src_is_model; assumption.
@@ -1082,17 +1147,38 @@ Proof.
   - apply Pick_src_is_model; assumption.
 Qed.
 
+(* StructMeta.__new__ ([define]) runs its two guards over `_enable_undefined_value = <bool>` (a known class
+   attribute, not a type) and nothing else: the class it builds is the one built without the attribute *)
+Lemma define_with_undefined re_match e gd g eu s :
+  define re_match e gd g (with_undefined eu s) = define re_match e gd g s.
+Proof.
+  unfold define, with_undefined.
+  cbn [s_name s_bases s_members s_required s_optional s_additional s_ignore_none s_attrs s_keys_of].
+  replace (existsb non_typedpy_assignment (undefined_attrs eu ++ s_attrs s))
+    with (existsb non_typedpy_assignment (s_attrs s)) by (destruct eu; reflexivity).
+  replace (existsb invalid_const (undefined_attrs eu ++ s_attrs s))
+    with (existsb invalid_const (s_attrs s)) by (destruct eu; reflexivity).
+  reflexivity.
+Qed.
+
 (* the model's [derive] IS: the source's operator, then StructMeta.__new__ ([define]) on the class dict it built;
-   the class object's `_ignore_none` attribute is what its own body or its bases in g say *)
-Theorem derive_is_source_then_define : forall re_match e gd g k pre post o as_list cname,
+   the class object's `_ignore_none` attribute is what its own body or its bases in g say, its
+   `_enable_undefined_value` attribute ([eu]) is carried into the class dict and does not alter what [define]
+   builds *)
+Theorem derive_is_source_then_define : forall re_match e gd g k eu pre post o as_list cname,
     others_ok pre = true -> others_ok post = true -> src_ok k = true -> op_ok k o cname = true ->
     derive re_match e gd g k o cname =
-    (x <- run_operator (klass_heap k (bases_ignore_none g k) pre post) o as_list cname ;;
+    (x <- run_operator (klass_heap k (bases_ignore_none g k) eu pre post) o as_list cname ;;
      s <- decode_newclass k x ;; define re_match e gd g s).
 Proof.
-  intros re_match e gd g k pre post o b cname Hpre Hpost Hsrc Hop. unfold derive.
-  rewrite <- (operators_src_is_model k (bases_ignore_none g k) pre post o b cname Hpre Hpost Hsrc Hop).
-  destruct (run_operator (klass_heap k (bases_ignore_none g k) pre post) o b cname); reflexivity.
+  intros re_match e gd g k eu pre post o b cname Hpre Hpost Hsrc Hop. unfold derive.
+  pose proof (operators_src_is_model k (bases_ignore_none g k) eu pre post o b cname Hpre Hpost Hsrc Hop) as H.
+  unfold derive_stmt_eu in H.
+  destruct (run_operator (klass_heap k (bases_ignore_none g k) eu pre post) o b cname) as [x|ex]; cbn [bind] in *.
+  - rewrite H. destruct (derive_stmt (bases_ignore_none g k) k o cname) as [s|ex]; cbn [bind]; [|reflexivity].
+    rewrite define_with_undefined. reflexivity.
+  - destruct (derive_stmt (bases_ignore_none g k) k o cname) as [s|ex']; cbn [bind] in *; [discriminate|].
+    inversion H. reflexivity.
 Qed.
 
 (* ------------------------------------------------------------------ the side conditions are satisfiable *)
@@ -1125,7 +1211,7 @@ Example side_conditions_satisfiable :
   op_ok ex_foo (OpPick [s2p "c"; s2p "a"; s2p "c"]) (Some (s2p "P")) = true /\
   (* and the two sides really compute a class statement there *)
   is_ok (derive_stmt None ex_foo (OpPick [s2p "c"; s2p "a"; s2p "c"]) (Some (s2p "P"))) = true /\
-  is_ok (x <- run_operator (klass_heap ex_foo None ex_pre ex_post) OpAllRequired false None ;; decode_newclass ex_foo x) = true.
+  is_ok (x <- run_operator (klass_heap ex_foo None None ex_pre ex_post) OpAllRequired false None ;; decode_newclass ex_foo x) = true.
 Proof. repeat split; vm_compute; reflexivity. Qed.
 
 (* class Sub(Base): a: Integer; k = Constant(5)   with   class Base(Structure): _ignore_none = True *)
@@ -1143,11 +1229,11 @@ Definition ex_sub : klass :=
    AllFieldsRequired (it is listed in _required, as in the source) *)
 Example inherited_ignore_none_and_constant :
   src_ok ex_sub = true /\ k_ignore_none ex_sub = None /\
-  match x <- run_operator (klass_heap ex_sub (Some true) [] []) OpAllRequired false None ;; decode_newclass ex_sub x with
+  match x <- run_operator (klass_heap ex_sub (Some true) None [] []) OpAllRequired false None ;; decode_newclass ex_sub x with
   | Ok s => s_ignore_none s = Some true /\ s_required s = Some [s2p "a"; s2p "k"]
   | Raise _ => False
   end /\
-  match x <- run_operator (klass_heap ex_sub None [] []) OpPartial false None ;; decode_newclass ex_sub x with
+  match x <- run_operator (klass_heap ex_sub None None [] []) OpPartial false None ;; decode_newclass ex_sub x with
   | Ok s => s_ignore_none s = None
   | Raise _ => False
   end.
@@ -1156,7 +1242,7 @@ Proof. vm_compute. repeat split; reflexivity. Qed.
 (* the disagreement on an explicit empty class name, on that class: the source names the class "OmitFoo",
    the hand-written model "" *)
 Example empty_name_disagreement :
-  let src := (x <- run_operator (klass_heap ex_foo None ex_pre ex_post) (OpOmit [s2p "c"]) false (Some []) ;;
+  let src := (x <- run_operator (klass_heap ex_foo None None ex_pre ex_post) (OpOmit [s2p "c"]) false (Some []) ;;
               decode_newclass ex_foo x) in
   let model := derive_stmt None ex_foo (OpOmit [s2p "c"]) (Some []) in
   match src, model with
@@ -1165,7 +1251,28 @@ Example empty_name_disagreement :
   end.
 Proof. vm_compute. repeat split; reflexivity. Qed.
 
+(* class Foo(Structure) with _enable_undefined_value = True / = False (own or inherited): every operator hands
+   type(...) a class dict with `_enable_undefined_value` holding the source's value; a source without the
+   attribute yields a dict without it *)
+Example enable_undefined_carried :
+  forall o, In o [OpPartial; OpAllRequired; OpExtend; OpOmit [s2p "c"]; OpPick [s2p "a"]] ->
+  (x <- run_operator (klass_heap ex_foo None (Some true) ex_pre ex_post) o false None ;; newclass_undefined ex_foo x)
+    = Ok (Some true) /\
+  (x <- run_operator (klass_heap ex_foo None (Some false) ex_pre ex_post) o true None ;; newclass_undefined ex_foo x)
+    = Ok (Some false) /\
+  (x <- run_operator (klass_heap ex_foo None None ex_pre ex_post) o false None ;; newclass_undefined ex_foo x)
+    = Ok None /\
+  match x <- run_operator (klass_heap ex_foo None (Some true) ex_pre ex_post) o false None ;; decode_newclass ex_foo x with
+  | Ok s => s_attrs s = [(n_enable_undefined, UBool)]
+  | Raise _ => False
+  end.
+Proof.
+  intros o [H|[H|[H|[H|[H|[]]]]]]; subst o; vm_compute; repeat split; reflexivity.
+Qed.
+
 Print Assumptions Partial_src_is_model.
+Print Assumptions define_with_undefined.
+Print Assumptions enable_undefined_carried.
 Print Assumptions AllFieldsRequired_src_is_model.
 Print Assumptions Extend_src_is_model.
 Print Assumptions Structure_omit_src_is_model.
